@@ -22,6 +22,31 @@ pub fn main(args: &Args) {
     let sched = args.extra.get("sched").map(|s| s == "1").unwrap_or(false);
     let src = std::fs::read_to_string(file).unwrap();
     let inp = |t: usize, c: usize| (t as f64) * 0.5 + c as f64;
+    if args.extra.contains_key("bytecode") {
+        match crate::run::Session::build(Backend::Vm, &src, sched, Some(std::path::PathBuf::from(file))) {
+            Ok(s) => println!("{}", s.vm().unwrap().prog),
+            Err(e) => println!("{}", e.short()),
+        }
+        return;
+    }
+    if args.extra.contains_key("counts") {
+        for b in [Backend::Vm, Backend::Wasm] {
+            match crate::run::Session::build(b, &src, sched, Some(std::path::PathBuf::from(file))) {
+                Ok(mut s) => {
+                    let mut v = vec![];
+                    for t in 0..n {
+                        let _ = s.step(&vec![0.5; s.io.input as usize]);
+                        if t == 0 || t + 1 == n / 2 || t + 1 == n {
+                            v.push((t + 1, s.live_counts()));
+                        }
+                    }
+                    println!("{} (closures, heap, arrays) at samples: {:?}", b.name(), v);
+                }
+                Err(e) => println!("{}: {}", b.name(), e.short()),
+            }
+        }
+        return;
+    }
     if args.extra.contains_key("trace") {
         use mimium_lang::verif;
         verif::configure(verif::Config { record_state: true, assert_bounds: false, step_budget: 0 });
